@@ -1278,3 +1278,5 @@ fire('c13-before-start-never-delivered', 'C13', P, 'Process.DoGlobalIteration',
 fire('c13-method-stop-never-delivered', 'C13', P, 'Process.Solve',
      '            listener.OnMethodStop(self.searchData, self.GetResults(), status)\n', '            pass\n', 'R13.3',
      why='found by mutation sampling: the loop over the listeners is kept but the call is gone')
+fire('c19-dual-ctor-arguments-exchanged', 'C19', SD, 'SearchDataDualQueue.__init__', 'super().__init__(problem, maxlen)',
+     'super().__init__(maxlen, problem)', 'R19.10', why='found by mutation sampling (argument swap)')
